@@ -199,7 +199,8 @@ Swap(e) ==
   IN ModelEv(e, IF ok THEN SwapM(mdl, e.k1 + 1, e.k2 + 1) ELSE mdl, << >>)
 
 ShiftBase(e) == ModelEv(e, ShiftBaseM(mdl), << >>)
-Factorise(e) == ModelEv(e, FactoriseM(mdl), << <<"factorise_only_when_stale", {"C16"}, ~mdl.fc>> >>)
+\* (e.exc: the QR factorisation raised - a system with non-finite entries, e.g. coincident points - and nothing was stored: the flag stays unset)
+Factorise(e) == ModelEv(e, IF e.exc THEN mdl ELSE FactoriseM(mdl), << <<"factorise_only_when_stale", {"C16"}, ~mdl.fc>> >>)
 
 SavePoint(e) ==
   LET pred == SavePointM(mdl, e.objarg, e.nsarg, e.enarg)
@@ -208,7 +209,7 @@ SavePoint(e) ==
                          <<"sp_batch_sample_count", {"C02", "C03"}, (batch.pend /\ e.enarg = batch.pnx) => e.nsarg = batch.prun>> >>)
 
 Interp(e) ==
-  LET pred == InterpM(mdl, e.ok)
+  LET pred == IF e.exc THEN mdl ELSE InterpM(mdl, e.ok)      \* a call that raised (inside its factorisation step) changed nothing
       incumb == ObjOpt(mdl)
       have == IF mdl.save.has /\ (Lt(mdl.save.obj, incumb) \/ IsNaN(incumb)) THEN mdl.save.obj ELSE incumb
   IN ModelEv(e, pred, << <<"interp_fails_on_nan", {"C08"}, HasNonFinite(mdl) => ~e.ok>>,
